@@ -99,6 +99,10 @@ func c07ParamJSON(ps []c07Param, level string, comps map[string]any) []any {
 			sch = map[string]any{"type": "string", "pattern": "^x"}
 		}
 		m := map[string]any{"name": p.Name, "in": p.In, "schema": sch}
+		if p.Kind == "cint" { // described by content instead of schema
+			delete(m, "schema")
+			m["content"] = map[string]any{"application/json": map[string]any{"schema": sch}}
+		}
 		if p.In == "path" {
 			m["required"] = true
 		}
